@@ -135,9 +135,9 @@ func (gj *resultGroupJob[T, R]) Close() error {
 	if err := gj.markClosed(); err != nil {
 		return err
 	}
-	gj.wgc.Done()
-
-	if gj.wgc.Count() == 0 {
+	// only the Done that brings the counter to zero closes the stream: two items finishing
+	// together would otherwise both see zero and close it twice
+	if gj.wgc.Done() {
 		gj.Response.Close()
 	}
 
@@ -208,9 +208,9 @@ func (gj *errorGroupJob[T]) Close() error {
 	if err := gj.markClosed(); err != nil {
 		return err
 	}
-	gj.wgc.Done()
-
-	if gj.wgc.Count() == 0 {
+	// only the Done that brings the counter to zero closes the stream: two items finishing
+	// together would otherwise both see zero and close it twice
+	if gj.wgc.Done() {
 		gj.Response.Close()
 	}
 
